@@ -463,7 +463,7 @@ def render(prog, R):
         if c in names[scope] and names[scope][c] != b:
             raise AssertionError("rename collision %s in %s" % (c, prog["name"]))
         names[scope][c] = b
-    return "\n".join(out) + "\n", {"line": linemap, "col": colmap, "names": names, "table": table}
+    return "\n".join(out) + "\n", {"line": linemap, "col": colmap, "names": names, "table": table, "groups": group_spellings(prog)}
 
 
 def validate(prog, repo):
@@ -548,25 +548,55 @@ def project_pos(maps, line, col):
     return item, "%d.%d.~%d" % (item, li, sum(1 for c in maps["col"][line] if c[0] < col)), False
 
 
+def group_spellings(prog):
+    """C06: (sugar, expanded) token spellings (names as written) of every use-site group, longest sugar first."""
+    res = []
+
+    def sp(toks):
+        return [t if isinstance(t, str) else base_of(t[1]) for t in toks]
+
+    def walk(toks):
+        for t in toks:
+            if isinstance(t, list) and t[0] == "X":
+                pair = (tuple(x for u in sp(t[2]) for x in _MTOK.findall(u)), tuple(x for u in sp(t[3]) for x in _MTOK.findall(u)))
+                if pair not in res and pair[0] != pair[1]:
+                    res.append(pair)
+    for it in prog["items"]:
+        for ls in [it["lines"]] + list(it["alt"].values()):
+            for ln in ls:
+                walk(ln["toks"])
+    res.sort(key=lambda p: -len(p[0]))
+    return res
+
+
+_MTOK = re.compile(r"[A-Za-z_][A-Za-z0-9_]*|\d+|\S")
+
+
 def project_text(maps, item, text):
-    """Names inside a message -> base spelling through the rename map of the location's scope; `line N` -> abstract line."""
+    """A message as a token sequence: names -> spelling as written (through the rename map of the location's scope),
+    `line N` -> abstract line, a use site written in its sugar form -> its expanded form (C06)."""
     loc = maps["names"].get(item, {})
     glob = maps["names"].get(-1, {})
-
-    def sub(m):
-        w = m.group()
-        if w in loc:
-            return loc[w]
-        if w in glob:
-            return glob[w]
-        return w
 
     def lineref(m):
         n = int(m.group(2))
         if n in maps["line"]:
             return "%s @%d.%d" % (m.group(1), maps["line"][n][0], maps["line"][n][1])
         return m.group()
-    return _WORD.sub(sub, _LINEREF.sub(lineref, text))
+    toks = [loc.get(w, glob.get(w, w)) for w in _MTOK.findall(_LINEREF.sub(lineref, text))]
+    for sugar, exp in maps.get("groups", []):
+        n = len(sugar)
+        k = 0
+        out = []
+        while k < len(toks):
+            if tuple(toks[k:k + n]) == sugar:
+                out += exp
+                k += n
+            else:
+                out.append(toks[k])
+                k += 1
+        toks = out
+    return " ".join(toks)
 
 
 def parse_output(stderr_text):
